@@ -453,9 +453,5 @@ theorem assignSlot_readonly_written {E : Env} {sl : Slot} {w : CVal} (hk : sl.de
     assignSlot E o n sl x = .error .traitError := by
   unfold assignSlot
   simp only [hk, hv]
-  split
-  · rename_i h; cases h; exact absurd rfl hw
-  · rename_i h; cases h
-  · trace_state; rfl
 
 end TraitsVerif.Lemmas.Persist
